@@ -376,6 +376,24 @@ def cowsplit_cases():
     return cases
 
 
+OPEN_WITNESS = 'corpus/C07/open/self-containing.ops'
+
+
+def open_witness_cases():
+    cases, cur = [], None
+    path = os.path.join(os.path.dirname(os.path.abspath(__file__)), '..', OPEN_WITNESS)
+    for line in open(path).read().split('\n'):
+        if line.startswith('case'):
+            cur = []
+        elif line == 'end':
+            if cur is not None:
+                cases.append(cur)
+            cur = None
+        elif cur is not None and line and not line.startswith('#'):
+            cur.append(line)
+    return cases
+
+
 class C07(Check):
     id = 'C07'
     comp = 'Variant'
@@ -456,6 +474,12 @@ class C07(Check):
         # 4. malformed / boundary: many invalid paths, variables, kinds
         cases = [['@2'] + history(rng, 2, rng.randrange(4, 14), nested=0.5, invalid=0.3) for _ in range(600 if thorough else 120)]
         out.append(Stream('malformed', cases, note='30% of steps/variables invalid'))
+        # 6. OPEN finding: an operation that stores into a payload a Variant containing that payload builds a reference
+        #    cycle in the code.  The witness (corpus/C07/open/self-containing.ops, unguarded `assign!`/`cont!`) is run only
+        #    when known_findings.json lists it as open (the run then prints KNOWN-FINDING); everywhere else such operations
+        #    are excluded by the hypothesis self_containing = false.
+        if any(k.get('status') == 'open' and k.get('witness') == OPEN_WITNESS for k in self.known_findings()):
+            out.append(Stream('selfcontaining', open_witness_cases(), note='open finding: payload stored into itself'))
         if thorough:
             # 5. every history of length <= 3 over a small op alphabet (2 variables)
             alpha = ['sets 0 - i1', 'setstr 0 - 61', 'setnode 0 - l -:0,-:1', 'setnode 1 - m 61:0', 'setnode 0 - a -:1',
